@@ -1910,6 +1910,7 @@ static Chunk *output_comment_c(Chunk *first)
 
       bool replace_comment = (  options::cmt_trailing_single_line_c_to_cpp()
                              && first->IsLastChunkOnLine()
+                             && first->Len() > 2
                              && first->Str().at(2) != '*');
 
       if (  replace_comment
